@@ -1,6 +1,7 @@
+\* quick: object numbers 1..3, two value ids, programs of up to 4 calls
 SPECIFICATION CSpec
 CONSTANTS MaxNum = 3
-  Vals = {"a"}
+  Vals = {"a", "b"}
   OBJSTM = TRUE
   SEEKABLE = FALSE
   MaxOps = 4
@@ -10,5 +11,5 @@ CONSTANTS MaxNum = 3
   KEY_MODE = "object"
   MEMBER_MODE = "container"
   META_MODE = "flag"
-INVARIANTS NoLeakOK ExemptPlainOK KeyScopeOK IVUniqueOK DistinctCipherOK MembersContainedOK Covered
+INVARIANTS AllOK
 CHECK_DEADLOCK FALSE
